@@ -144,6 +144,68 @@ def sed_line_based(srcdir, base64_text):
     return '\n'.join(out)
 
 
+def c13_constants(srcdir):
+    """C13: shell command templates, buffer sizes, mtu bounds and the validation structure of
+    tun_setip (LINUX branch of tun.c), login reply scanf format and call order (client.c)."""
+    C = {}
+    tun_c = strip_comments(read(srcdir, 'tun.c'))
+    lit = r'((?:\s*"(?:[^"\\]|\\.)*")+)'
+    ifconfigpath = find_define_string(tun_c, 'IFCONFIGPATH', 'tun.c')
+    m = re.search(r'\ntun_setip\s*\(.*?snprintf\s*\(\s*cmdline\s*,\s*sizeof\s*\(\s*cmdline\s*\)\s*,\s*IFCONFIGPATH' + lit +
+                  r'\s*,\s*if_name\s*,\s*(\w+)\s*,\s*(\w+)\s*,\s*inet_ntoa\s*\(\s*net\s*\)\s*\)\s*;', tun_c, flags=re.S)
+    if not m:
+        raise TranslatorError('translator: anchor tun_setip ifconfig snprintf (format, if_name, <addr>, <addr>, inet_ntoa(net)) not found in tun.c')
+    C['SETIP_FMT'] = ifconfigpath + parse_c_string_literals(m.group(1))
+    args = [m.group(2), m.group(3)]
+    pre = tun_c[tun_c.index('\ntun_setip'):m.start(1)]
+    # which address each %s receives: 0 = ip, 1 = other_ip (display_ip resolved through the non-FREEBSD branch)
+    md = re.search(r'#\s*ifdef\s+FREEBSD\s*display_ip\s*=\s*\w+\s*;[^#]*#\s*else\s*display_ip\s*=\s*(\w+)\s*;\s*#\s*endif', pre)
+    for i, a in enumerate(args):
+        if a == 'display_ip':
+            if not md:
+                raise TranslatorError('translator: anchor display_ip assignment (non-FREEBSD branch) not found in tun_setip')
+            a = md.group(1)
+        if a not in ('ip', 'other_ip'):
+            raise TranslatorError('translator: tun_setip interpolates %r, which is neither ip nor other_ip' % a)
+        C['SETIP_ARG%d' % (i + 1)] = 0 if a == 'ip' else 1
+    # validation: every  if (<cond>) { ... return 1; }  before the snprintf whose condition mentions an address
+    flags = dict(SETIP_CHECK_INET_ADDR=0, SETIP_PTON_IP=0, SETIP_PTON_OTHER=0)
+    for mm in re.finditer(r'\bif\s*\(((?:[^(){}]|\([^(){}]*\))*)\)\s*\{[^{}]*\breturn\s+1\s*;\s*\}', pre):
+        cond = mm.group(1)
+        if 'ip' not in cond:
+            continue
+        for term in cond.split('||'):
+            term = ' '.join(term.split())
+            if re.fullmatch(r'inet_addr ?\( ?ip ?\) ?== ?INADDR_NONE', term):
+                flags['SETIP_CHECK_INET_ADDR'] = 1
+            elif re.fullmatch(r'inet_pton ?\( ?AF_INET ?, ?ip ?, ?&\w+ ?\) ?!= ?1', term):
+                flags['SETIP_PTON_IP'] = 1
+            elif re.fullmatch(r'inet_pton ?\( ?AF_INET ?, ?other_ip ?, ?&\w+ ?\) ?!= ?1', term):
+                flags['SETIP_PTON_OTHER'] = 1
+            else:
+                raise TranslatorError('translator: tun_setip rejects on a condition that is not modelled: %r' % term)
+    C.update(flags)
+    m = re.search(r'\ntun_setmtu\s*\(.*?snprintf\s*\(\s*cmdline\s*,\s*sizeof\s*\(\s*cmdline\s*\)\s*,\s*IFCONFIGPATH' + lit +
+                  r'\s*,\s*if_name\s*,\s*mtu\s*\)\s*;', tun_c, flags=re.S)
+    if not m:
+        raise TranslatorError('translator: anchor tun_setmtu ifconfig snprintf (format, if_name, mtu) not found in tun.c')
+    C['SETMTU_FMT'] = ifconfigpath + parse_c_string_literals(m.group(1))
+    C['SETIP_CMDLINE_SIZE'] = anchored_int(tun_c, r'\ntun_setip\s*\([^)]*\)\s*\{\s*char\s+cmdline\s*\[\s*(\d+)\s*\]', 'tun_setip cmdline size', 'tun.c')
+    C['SETMTU_CMDLINE_SIZE'] = anchored_int(tun_c, r'\ntun_setmtu\s*\([^)]*\)\s*\{.*?char\s+cmdline\s*\[\s*(\d+)\s*\]', 'tun_setmtu cmdline size', 'tun.c')
+    C['IFNAME_SIZE'] = anchored_int(tun_c, r'static\s+char\s+if_name\s*\[\s*(\d+)\s*\]', 'if_name size', 'tun.c')
+    C['MTU_LO'] = anchored_int(tun_c, r'\ntun_setmtu\s*\(const\s+unsigned\s+mtu\)[^;]*;\s*if\s*\(\s*mtu\s*>\s*(\d+)\s*&&\s*mtu\s*<=\s*\d+\s*\)\s*\{\s*snprintf', 'tun_setmtu lower bound', 'tun.c')
+    C['MTU_HI'] = anchored_int(tun_c, r'\ntun_setmtu\s*\(const\s+unsigned\s+mtu\)[^;]*;\s*if\s*\(\s*mtu\s*>\s*\d+\s*&&\s*mtu\s*<=\s*(\d+)\s*\)\s*\{\s*snprintf', 'tun_setmtu upper bound', 'tun.c')
+    client_c = strip_comments(read(srcdir, 'client.c'))
+    m = re.search(r'\nhandshake_login\s*\(.*?sscanf\s*\(\s*in\s*,' + lit + r'\s*,\s*server\s*,\s*client\s*,\s*&mtu\s*,\s*&netmask\s*\)\s*==\s*4\s*\)\s*\{'
+                  r'\s*server\s*\[64\]\s*=\s*0\s*;\s*client\s*\[64\]\s*=\s*0\s*;\s*if\s*\(\s*tun_setip\s*\(\s*client\s*,\s*server\s*,\s*netmask\s*\)\s*==\s*0\s*&&'
+                  r'\s*tun_setmtu\s*\(\s*mtu\s*\)\s*==\s*0\s*\)', client_c, flags=re.S)
+    if not m:
+        raise TranslatorError('translator: anchor handshake_login "sscanf(in, fmt, server, client, &mtu, &netmask) == 4 ... '
+                              'tun_setip(client, server, netmask) == 0 && tun_setmtu(mtu) == 0" not found in client.c')
+    C['LOGIN_FMT'] = parse_c_string_literals(m.group(1))
+    return C
+
+
 def coq_list(xs):
     return '[' + '; '.join(str(x) for x in xs) + ']'
 
@@ -221,6 +283,14 @@ def generate(srcdir):
     C['USER_RESERVED_ADDRS'] = anchored_int(user_c, r'maxusers\s*=\s*\(1\s*<<\s*\(32\s*-\s*netbits\)\)\s*-\s*(\d+)\s*;', 'init_users reserved', 'user.c')
     C['USER_DEFAULT_FRAGSIZE_V'] = anchored_int(user_c, r'find_available_user.*?fragsize\s*=\s*(\d+)\s*;', 'find_available_user fragsize', 'user.c')
 
+    # C13 anchors are kept local to C13: if one is missing the constants are omitted (Shell.v then
+    # fails to build, which the C13 check reports) instead of failing the translator for every property
+    c13_err = None
+    try:
+        C.update(c13_constants(srcdir))
+    except TranslatorError as e:
+        c13_err = str(e)
+
     lines = []
     lines.append('(* GENERATED by tools/gen_consts.py from the repository sources on every run. DO NOT EDIT. *)')
     lines.append('From Coq Require Import List NArith.')
@@ -233,8 +303,13 @@ def generate(srcdir):
             lines.append('Definition src_%s : list N := %s.' % (k, coq_list(v)))
         else:
             lines.append('Definition src_%s : N := %d.' % (k, v))
+    if c13_err:
+        lines.append('(* C13 constants omitted: %s *)' % c13_err.replace('*)', '* )'))
     lines.append('')
-    return '\n'.join(lines), C
+    text = '\n'.join(lines)
+    if c13_err:
+        C['C13_ERROR'] = c13_err      # for checks/c13.py only; not a Coq constant
+    return text, C
 
 
 def write_if_changed(path, text):
